@@ -2,10 +2,12 @@ package main
 
 import (
 	"fmt"
+	"github.com/containers/nri-plugins/pkg/utils/cpuset"
 	"path"
 	"sort"
 	"strconv"
 	"strings"
+	"verifh/verifrt"
 
 	nri "github.com/containerd/nri/pkg/api"
 
@@ -192,11 +194,16 @@ type oracles struct {
 	coexisted [][]string
 	lastKind  string
 	lastErr   bool // the last request failed
-	errSince  map[string]bool
-	w         *world
-	pristine  string // C09: zones right after applying the configuration
-	prevZone  map[string]uint64
-	c13       *c13state
+	// C08 direct exerciser
+	xAlloc   *allocMonitor
+	xRand    *verifrt.Rand
+	xOnline  []int
+	xSet     cpuset.CPUSet
+	errSince map[string]bool
+	w        *world
+	pristine string // C09: zones right after applying the configuration
+	prevZone map[string]uint64
+	c13      *c13state
 }
 
 func newOracles(w *world) *oracles { return &oracles{w: w, prevZone: map[string]uint64{}} }
@@ -251,6 +258,8 @@ func (o *oracles) afterRequest(rep *reply) {
 		o.checkC04(o.report("C04"), rep)
 	case "C05":
 		o.checkC05(o.report("C05"), rep)
+	case "C08":
+		o.exerciseAllocator(3)
 	case "C09":
 		o.checkC09Stopped(o.report("C09"))
 	case "C11":
@@ -801,7 +810,7 @@ func (o *oracles) checkC14(rep reporter, r *reply) {
 // was rejected and reverted in this incarnation (F16); an accepted
 // reconfiguration happened in this incarnation.
 func explainedByVerbatimReinstate(clause string) bool {
-	for _, c := range []string{"reserved-only-reserved-class", "within-available", "eligibility", "isolated-all-or-none", "shares"} {
+	for _, c := range []string{"reserved-only-reserved-class", "within-available", "eligibility", "isolated-all-or-none", "shares", "nonempty-cpuset"} {
 		if strings.HasSuffix(clause, c) {
 			return true
 		}
